@@ -646,6 +646,41 @@ Proof.
     pose proof (INJ _ _ _ D H1 H2 X) as Y. inversion Y. contradiction.
 Qed.
 
+(* with packages: names are distinct inside each package (across all packages when [flat]) *)
+Lemma nodupq_NoDup l : nodupq l = true -> NoDup l.
+Proof.
+  induction l as [|x r IH]; intros H; [constructor|]. cbn [nodupq] in H. apply andb_prop in H as [H1 H2].
+  constructor; [|apply IH; exact H2]. intros Hin. apply Bool.negb_true_iff in H1.
+  assert (existsb (qual_eqb x) r = true) as X; [|congruence].
+  apply existsb_exists. exists x. split; [exact Hin|]. unfold qual_eqb, runes_eqb. rewrite !str_eqb_refl. reflexivity.
+Qed.
+
+Theorem plan_ops_pkg_own_names u pk flat ops m : plan_ops_pkg u pk flat ops = Some m ->
+  (forall o, In o ops -> exists k e, In (k, e) m /\ same_route e o) /\
+  NoDup (map fst m) /\
+  (forall o1 o2 k1 k2 e1 e2, In (k1, e1) m -> In (k2, e2) m -> same_route e1 o1 -> same_route e2 o2 -> ~ same_route o1 o2 ->
+     k1 <> k2 /\ ((flat = true \/ pkg_of pk e1 = pkg_of pk e2) -> pascalize u k1 <> pascalize u k2)).
+Proof.
+  unfold plan_ops_pkg. destruct (forallb _ ops && nodupq _) eqn:E; [|discriminate]. intros H. inversion H; subst m. clear H.
+  apply andb_prop in E as [R D]. pose proof (gather_keys_nodup u ops [] (NoDup_nil _)) as ND. fold (gather_operations u ops) in ND.
+  apply nodupq_NoDup in D. split; [|split; [exact ND|]].
+  - intros o Ho. rewrite forallb_forall in R. specialize (R o Ho). unfold represented in R. apply existsb_exists in R as [[k e] [Hin Hm]].
+    exists k, e. split; [exact Hin|]. cbn [snd] in Hm. apply andb_prop in Hm as [M P]. apply str_eqb_eq in M. apply str_eqb_eq in P. split; assumption.
+  - intros o1 o2 k1 k2 e1 e2 H1 H2 [M1 P1] [M2 P2] Hd.
+    assert (k1 <> k2) as K.
+    { intros X. subst k2. pose proof (NoDup_fst_inj _ _ _ _ ND H1 H2) as X. subst e2. apply Hd. split; congruence. }
+    split; [exact K|]. intros Hp X.
+    assert (forall (l : list (runes * opspec)) a b, NoDup (map (qualified u pk flat) l) -> In a l -> In b l -> qualified u pk flat a = qualified u pk flat b -> a = b) as INJ.
+    { induction l as [|x r IH]; intros a b N Ha Hb Eq; [contradiction|]. inversion N as [|? ? Hn Hr]; subst.
+      destruct Ha as [Ha|Ha], Hb as [Hb|Hb]; subst; try reflexivity.
+      - exfalso. apply Hn. rewrite Eq. apply in_map_iff. exists b. auto.
+      - exfalso. apply Hn. rewrite <- Eq. apply in_map_iff. exists a. auto.
+      - apply IH; assumption. }
+    assert (qualified u pk flat (k1, e1) = qualified u pk flat (k2, e2)) as Q.
+    { unfold qualified. cbn [fst snd]. rewrite X. destruct flat; [reflexivity|]. destruct Hp as [Hp|Hp]; [discriminate | rewrite Hp; reflexivity]. }
+    pose proof (INJ _ _ _ D H1 H2 Q) as Y. inversion Y. contradiction.
+Qed.
+
 Theorem plan_defs_own_names u defs p : plan_defs u defs = Some p ->
   map fst p = defs /\ NoDup (map (def_type u) defs) /\ NoDup (map (def_file u) defs).
 Proof.
